@@ -989,7 +989,16 @@ def run(ck: common.Check):
                "interleaved, sparse); node and edge properties sharing names (same/different dtype, fixed/var-length). "
                "STRING VALUE CLASSES: every string column over {'', 'b'} of length 1..3 (all-empty, single empty, empty at each position), "
                "N-D / masked / all-missing-padded-with-'' variants, node and edge side, x fixed width / variable length UTF8 x zarr 2 / 3, and "
-               "the random graphs again with their string properties blanked. READ/REWRITE HISTORIES: one location (Path, str, LocalStore "
+               "the random graphs again with their string properties blanked. "
+               "LAYOUT FREEDOM of variable-length properties (the offset table only has to point into `data`): every size vector over "
+               "{0,1,2}^n (n <= 3, some n = 4) x EVERY permutation of the order in which the elements are appended to `data` x gap patterns "
+               "(none = the sections tile `data`, leading = first offset != 0, before every element, trailing, leading+trailing; thorough: "
+               "all 0/1 patterns), 2-D / 3-D / rank-0 elements x every permutation, shared / nested / repeated elements (rows pointing into "
+               "cells of another element) x every permutation, missing elements with and without a section, node and edge side, zarr 2 / 3, "
+               "5 data dtypes, + seeded random plans (the random graphs of the general stream also get a random plan per property); each such "
+               "store read through read_to_memory (validation on/off), GeffReader.build() unmasked AND with node / edge masks (all, all but "
+               "one, one, none; compared with the selected part of the denoted graph), geff.read networkx / rustworkx. "
+               "READ/REWRITE HISTORIES: one location (Path, str, LocalStore "
                "per call, one LocalStore object, one MemoryStore object) through 2-3 epochs; each epoch a writer (independent writer into "
                "the empty location / after rmtree / zarr overwrite / directory swap, with an unrelated graph or one derived from the previous "
                "one: same names other dtypes, fixed<->var-length, properties dropped/added, directedness flipped, any format; an in-place "
@@ -1048,7 +1057,7 @@ def run(ck: common.Check):
     # LAYOUT FREEDOM of variable-length properties: sections of `data` in every order, with gaps, shared, N-D, masked reads
     from harness.corr import _c02_layout as LY
     d2 += LY.layout_cases(ck.rng, ck.quick)
-    d2 += LY.random_layout_cases(ck.rng, 250 if ck.quick else 3000)
+    d2 += LY.random_layout_cases(ck.rng, 150 if ck.quick else 3000)
     # graphs in the domain of the spatial-graph backend (axes, numeric fixed-shape properties, no missing values)
     sg_warm()
     for _ in range(120 if ck.quick else 1200):
